@@ -26,6 +26,7 @@ def dispatch (line : String) : String :=
     | "read" => readCmd rest
     | "sched-err" => schedErrCmd rest
     | "sched-close" => schedCloseCmd rest
+    | "sched-rec" => schedRecCmd rest
     | "views" => viewsCmd rest
     | "meta" => metaCmd rest
     | "hdr-rec" => hdrRec rest
